@@ -256,7 +256,7 @@ def eval_lcmv(rp, rng=None):
 
 
 # ----------------------------------------------------------------------------- Souden MVDR / WMWF
-_QT = [0]
+_QT = [0, 0]
 
 
 def make_sw(rng, tier, idx, which):
@@ -269,6 +269,12 @@ def make_sw(rng, tier, idx, which):
     if auto:
         Fmax = min(Fmax, max(2, 1200 // (D * D)) + 1)
     F = int(rng.integers(1, Fmax))
+    _QT[1] += 1
+    wide = _QT[1] % 6 == 2
+    if wide:
+        # the upper end of the frequency range (F = 32, also 31 / 24) with the automatic reference channel; the odd bins
+        # carry the louder target, so the broadband criterion is decided by them
+        auto, lead, D, F = True, (), int(rng.integers(2, 6)), [32, 32, 31, 24][(_QT[1] // 6) % 4]
     scale = 10.0 ** rng.integers(-3, 4)
     Pn = rand_hpd(rng, lead + (F,), D, scale=scale * 10.0 ** rng.uniform(-1, 1))
     kind = 'rank1' if rng.random() < 0.6 else 'full'
@@ -276,6 +282,10 @@ def make_sw(rng, tier, idx, which):
         Px, a, sigma = rank1_psd(rng, lead + (F,), D, scale)
     else:
         Px, a, sigma = rand_hpd(rng, lead + (F,), D, scale=scale), None, None
+    if wide:
+        lev = np.where(np.arange(F) % 2 == 1, 1e3, 1.0)
+        Px = Px * lev[:, None, None]
+        sigma = None if sigma is None else sigma * lev
     _QT[0] += 1
     quiet = _QT[0] % 5 == 0
     if quiet:
